@@ -1120,7 +1120,7 @@ package router
 // Leaving: the realm goroutine drops the client entry and testaments and has
 // the dealer and broker remove the session, unless the whole realm shuts down.
 //@ closure (r *realm) onLeave 1
-//@   props C05 C02
+//@   props C05 C02 C01
 //@   captures sess != nil && sync != nil && r != nil && r.dealer != nil && r.broker != nil && r.clients != nil && r.testaments != nil
 //@   callcount removeSession arg1
 //@   returnsite : [session-removed-from-dealer-and-broker-unless-realm-shuts-down] !shutdown ==> calls(removeSession, sess) == old(calls(removeSession, sess)) + 2
@@ -1154,6 +1154,8 @@ package router
 //@   on broker
 //@   props C18 C04
 //@   requires brokerInv(b)
+//@   callsite PrefixMatch : [the-topic-is-matched-against-the-subscription-pattern] arg0 == topic && arg1 == pfxTopic && pfxTopic in b.pfxTopicSubscription
+//@   callsite WildcardMatch : [the-topic-is-matched-against-the-subscription-pattern] arg0 == topic && arg1 == wcTopic && wcTopic in b.wcTopicSubscription
 
 //@ closure (b *broker) subGet 1
 //@   on broker
